@@ -73,6 +73,11 @@ type OptSet struct {
 	Use2ByteAS bool
 	Extended   bool
 	Opts       []*bgp.MarshallingOption
+	// The same session seen from one end only: Enc has ADD-PATH in mode SEND (what the encoder of a speaker
+	// that only sends path identifiers is given), Dec in mode RECEIVE (the decoder at the other end). Bytes
+	// written under Enc must be the bytes written under Opts and must parse under Dec; a codec function that
+	// asks for the wrong direction shows here and nowhere else (both nil without ADD-PATH).
+	Enc, Dec []*bgp.MarshallingOption
 }
 
 // Compatible reports whether an item with AS requirement `as` (and extended-message need) may be
@@ -128,6 +133,15 @@ func MarshallingOptionSets() []OptSet {
 							m.AddPath[f] = bgp.BGP_ADD_PATH_BOTH
 						}
 					}
+				}
+				if ap != 0 {
+					e := &bgp.MarshallingOption{Use2ByteAS: as2, ExtendedMessage: ext, AddPath: map[bgp.Family]bgp.BGPAddPathMode{}}
+					d := &bgp.MarshallingOption{Use2ByteAS: as2, ExtendedMessage: ext, AddPath: map[bgp.Family]bgp.BGPAddPathMode{}}
+					for f := range m.AddPath {
+						e.AddPath[f] = bgp.BGP_ADD_PATH_SEND
+						d.AddPath[f] = bgp.BGP_ADD_PATH_RECEIVE
+					}
+					o.Enc, o.Dec = []*bgp.MarshallingOption{e}, []*bgp.MarshallingOption{d}
 				}
 				o.Name = []string{"noaddpath", "addpath-v4uc", "addpath-mp", "addpath-all"}[ap]
 				if as2 {
